@@ -513,10 +513,12 @@ def validateXor (env : Env) (opts : List Mid) (v : V) : Res :=
 
 /-! ## intersection  (`types/intersection.go:97-176,473-552`) -/
 
-def isUnrec (i : Issue) : Bool := i.code == .unrecognizedKeys
+/-- an unrecognized_keys issue about the intersected value ITSELF (empty path); one reported by a nested
+    object is an ordinary issue (/repo 8f04f95). -/
+def isUnrec (i : Issue) : Bool := i.code == .unrecognizedKeys && i.path.isEmpty
 
-/-- `mergeUnrecognizedKeysIssues`: other issues of both sides, plus one unrecognized_keys issue for
-    the keys BOTH sides reported (built without a path today). -/
+/-- `mergeUnrecognizedKeysIssues`: other issues of both sides (incl. nested unrecognized_keys issues), plus
+    one unrecognized_keys issue for the top-level keys BOTH sides reported (built without a path today). -/
 def mergeUnrec (cfg : Cfg) (l r : List Issue) : List Issue :=
   let lk := (l.filter isUnrec).flatMap (·.keys)
   let rk := (r.filter isUnrec).flatMap (·.keys)
